@@ -56,6 +56,7 @@ type c12Spec struct {
 	Mode      string     `json:"mode"`                   // production | testing
 	Prior     int        `json:"prior_panics,omitempty"` // Panic calls issued (and recovered) on the same logger before the call of the cell
 	Argv      string     `json:"extra_argv,omitempty"`   // one more command-line argument of the process (an application flag that merely looks like a test flag)
+	ViaScope  bool       `json:"flags_via_scope,omitempty"` // the two flags reach the cell's values through a SaveFlagsAndMod scope that set the opposite and was left again
 	NArgs     int        `json:"more_pairs,omitempty"`   // further key/value pairs of the call (0: the one pair every cell has); more than the pooled slices hold when large
 	Dir       string     `json:"dir,omitempty"`
 }
@@ -65,7 +66,7 @@ func (s c12Spec) canon() string {
 	if s.Custom != nil {
 		c = fmt.Sprintf("%d/%d", s.Custom.V, s.Custom.Treat)
 	}
-	return fmt.Sprintf("%s.%s sev=%d L=%d ni=%v ia=%v %s d=%d %s c=%s p=%d", s.Recv, s.Name, s.Sev, s.Level, s.NoInt, s.IntAlways, s.Format, s.Dests, s.Mode, c, s.Prior) + " " + s.Argv + fmt.Sprintf(" n=%d", s.NArgs)
+	return fmt.Sprintf("%s.%s sev=%d L=%d ni=%v ia=%v %s d=%d %s c=%s p=%d", s.Recv, s.Name, s.Sev, s.Level, s.NoInt, s.IntAlways, s.Format, s.Dests, s.Mode, c, s.Prior) + " " + s.Argv + fmt.Sprintf(" n=%d scope=%v", s.NArgs, s.ViaScope)
 }
 
 // what the parent saw
@@ -174,6 +175,23 @@ func c12Child(args []string) {
 	}
 	if sp.IntAlways {
 		slog.AddFlags(slog.Linterruptalways)
+	}
+	if sp.ViaScope {
+		// a scope that had the opposite of both flags (SaveFlagsAndMod), left through the function it returned: the flags
+		// are the cell's again, whatever was derived from them in between
+		var add, rem slog.Flags
+		if sp.NoInt {
+			rem |= slog.LnoInterrupt
+		} else {
+			add |= slog.LnoInterrupt
+		}
+		if sp.IntAlways {
+			rem |= slog.Linterruptalways
+		} else {
+			add |= slog.Linterruptalways
+		}
+		restore := slog.SaveFlagsAndMod(add, rem)
+		restore()
 	}
 	var e *slog.Entry
 	if sp.Recv == "pkg" {
@@ -573,8 +591,9 @@ func runC12(r *Run) {
 	bins := c12FindBins()
 	// registered severities: treated as Info, not treated, negative, and treated as Panic / as Fatal (for admission
 	// only: they are not Panic or Fatal and never terminate)
-	custom := []*c12Custom{{13, 4}, {12, -1}, {-5, -1}, {14, 0}, {15, 1}, {-7, 1}}
-	negSevs := []int{2, 3, 4, 5, 6, 7, 8, 9, 10, 11, 13, 12, -5, 14, 15, -7}
+	// (16, 17, 32, 33, -16, -15: values that agree with Panic (0) and Fatal (1) in their low bits)
+	custom := []*c12Custom{{13, 4}, {12, -1}, {-5, -1}, {14, 0}, {15, 1}, {-7, 1}, {16, -1}, {17, -1}, {32, -1}, {33, -1}, {-16, -1}, {-15, -1}}
+	negSevs := []int{2, 3, 4, 5, 6, 7, 8, 9, 10, 11, 13, 12, -5, 14, 15, -7, 16, 17, 32, 33, -16, -15}
 	termEPs, otherEPs := c12EntryPoints(r, negSevs)
 	r.Extra["entry_points_carrying_panic_fatal"] = len(termEPs)
 	r.Extra["entry_points_other"] = len(otherEPs)
@@ -664,7 +683,7 @@ func runC12(r *Run) {
 		// always in: the registered severities treated as Panic / Fatal and the negative ones, armed (production, and
 		// go test with interrupt-always), on an Always logger
 		for _, c := range negatives {
-			if cu := customOf(c.Sev); cu != nil && (cu.Treat == 0 || cu.Treat == 1 || cu.V < 0) && c.Level == 8 && (c.Mode == "production" || c.IntAlways) {
+			if cu := customOf(c.Sev); cu != nil && (cu.Treat == 0 || cu.Treat == 1 || cu.V < 0 || cu.V >= 16) && c.Level == 8 && (c.Mode == "production" || c.IntAlways) {
 				cells = append(cells, c)
 			}
 		}
@@ -675,6 +694,7 @@ func runC12(r *Run) {
 		}
 		cells[i].Dests = 1 + r.R.Intn(2)
 		cells[i].Prior = i % 3
+		cells[i].ViaScope = i%3 == 1
 		if i%5 == 2 { // a call with more attributes than the pooled slices hold
 			cells[i].NArgs = []int{1100, 130, 2100}[i/5%3]
 		}
